@@ -23,6 +23,6 @@ def CovDependent (blk : List α) (p : Nat) (b : List α) : Prop :=
 def callOrder (len : Nat) : OrdArg → Nat
   | .omitted | .none => len - 1
   | .int i => i.toNat
-  | .real _ => 0
+  | .real _ _ => 0
 
 end ALV.C10
